@@ -289,6 +289,8 @@ type Interp struct {
 	loopLimit    int
 	CondVal      Value    // value of the atomic condition being refined (valid inside Domain.Cond)
 	recvOverride ast.Expr // receiver expression for the next inline (callbacks such as container/heap)
+	// ExprVal lets a rule name the values of channel receives and field reads (tokens), so that it can follow them
+	ExprVal func(fr *Frame, e ast.Expr) (Value, bool)
 }
 
 func NewInterp(p *Prog, d Domain) *Interp {
@@ -1004,9 +1006,18 @@ func (ip *Interp) execRange(fr *Frame, s *ast.RangeStmt, st *State, label string
 		var bodyIn []*State
 		for _, x := range fresh {
 			ns := x
-			for _, kv := range []ast.Expr{s.Key, s.Value} {
+			// an element of a collection that is a domain token is the token "<t>[]"
+			elem := unknown
+			if cv := ip.pureValue(fr, x, s.X); cv.Kind == VTok {
+				elem = Value{Kind: VTok, S: cv.S + "[]"}
+			}
+			for i, kv := range []ast.Expr{s.Key, s.Value} {
 				if id, ok := kv.(*ast.Ident); ok && id.Name != "_" {
-					ns = ip.bind(ns, info.ObjectOf(id), unknown, fr.Depth)
+					v := unknown
+					if i == 1 {
+						v = elem
+					}
+					ns = ip.bind(ns, info.ObjectOf(id), v, fr.Depth)
 				}
 			}
 			bodyIn = append(bodyIn, ip.Dom.Visit(ip, fr, ns, LoopIter{s}))
@@ -1408,7 +1419,13 @@ func (ip *Interp) eval(fr *Frame, st *State, e ast.Expr) []Out {
 		}
 		var outs []Out
 		for _, o := range ip.eval(fr, st, x.X) {
-			outs = append(outs, Out{St: ip.Dom.Visit(ip, fr, o.St, x), Vals: []Value{unknown}})
+			v := unknown
+			if ip.ExprVal != nil {
+				if tv, ok := ip.ExprVal(fr, x); ok {
+					v = tv
+				}
+			}
+			outs = append(outs, Out{St: ip.Dom.Visit(ip, fr, o.St, x), Vals: []Value{v}})
 		}
 		return outs
 	case *ast.StarExpr:
@@ -1448,6 +1465,12 @@ func (ip *Interp) eval(fr *Frame, st *State, e ast.Expr) []Out {
 				ns = ip.Dom.Visit(ip, fr, ns, x)
 			}
 			v := unknown
+			if x.Op == token.ARROW && ip.ExprVal != nil {
+				if tv, ok := ip.ExprVal(fr, x); ok {
+					outs = append(outs, Out{St: ns, Vals: []Value{tv, {Kind: VTok, S: tv.S + "ok"}}})
+					continue
+				}
+			}
 			if x.Op == token.AND {
 				v = Value{Kind: VNonNil}
 				if id, ok := ast.Unparen(x.X).(*ast.Ident); ok {
@@ -1496,7 +1519,11 @@ func (ip *Interp) eval(fr *Frame, st *State, e ast.Expr) []Out {
 		var outs []Out
 		for _, l := range ip.eval(fr, st, x.X) {
 			for _, r := range ip.eval(fr, l.St, x.Index) {
-				outs = append(outs, Out{St: ip.Dom.Visit(ip, fr, r.St, x), Vals: []Value{unknown}})
+				v := unknown
+				if lv := l.val(); lv.Kind == VTok {
+					v = Value{Kind: VTok, S: lv.S + "[]"}
+				}
+				outs = append(outs, Out{St: ip.Dom.Visit(ip, fr, r.St, x), Vals: []Value{v}})
 			}
 		}
 		return outs
@@ -1810,7 +1837,6 @@ func foldInts(op token.Token, a, b Value) (Value, bool) {
 	}
 	return Value{}, false
 }
-
 
 func isBoolType(t types.Type) bool {
 	b, ok := t.Underlying().(*types.Basic)
